@@ -147,7 +147,7 @@ func VerifC09_LoadTotal() {
 func acceptString() string {
 	maxLen := 3
 	if rt.Thorough() {
-		maxLen = 5
+		maxLen = 4
 	}
 	s := rt.StrN("accept", 0, maxLen)
 	for i := 0; i < len(s); i++ {
